@@ -154,7 +154,11 @@ func grid(nopts int) []read {
 }
 
 // answer of one read, comparable.
-func doRead(g storage.Graph, r read) string {
+func doRead(g storage.Graph, r read) string { return doReadWith(g, r, nil) }
+
+// doReadWith: when lo is given, the caller's ONE options value is filled in place with the options of this read
+// (a caller that keeps a LookupOptions value and changes its fields between lookups, e.g. a paging loop).
+func doReadWith(g storage.Graph, r read, lo *storage.LookupOptions) string {
 	if r.exist != nil {
 		var ok bool
 		var err error
@@ -166,7 +170,13 @@ func doRead(g storage.Graph, r read) string {
 		}
 		return fmt.Sprint(ok)
 	}
-	res := lookup.CallOpts(g, r.q, r.o)
+	var res lookup.Result
+	if lo != nil {
+		*lo = *r.o.Storage()
+		res = lookup.Call(g, r.q, lo)
+	} else {
+		res = lookup.CallOpts(g, r.q, r.o)
+	}
 	if !res.OK() {
 		return "[" + res.Problem() + "] " + res.String()
 	}
@@ -295,6 +305,7 @@ type instance struct {
 	rawAns   []string
 	rawKnown []bool
 	content  uint8
+	lo       storage.LookupOptions // the one options value every read through a handle reuses
 }
 
 func newInstance(reads []read) (*instance, error) {
@@ -348,7 +359,7 @@ func (in *instance) exec(o op, opIdx int, out *[]mismatch, nreadsDone *int) erro
 		return err
 	}
 	for _, ri := range readsOf(o, len(in.reads)) {
-		got := doRead(in.h[o.H], in.reads[ri])
+		got := doReadWith(in.h[o.H], in.reads[ri], &in.lo)
 		want := in.rawAnswer(ri)
 		*nreadsDone++
 		if got != want {
